@@ -119,6 +119,9 @@ def value_class(op):
     return t
 
 
+LAZY_FORMS = ('list', 'gen', 'iter', 'map')
+
+
 def snake_data(op):
     """Payload of a snake store: spelled out, or (for the very long ones) regenerated from a seed so that traces stay small."""
     if 'vgen' in op:
@@ -163,7 +166,12 @@ def _lib_store(st, be, op, r=None):
     if t == 'bits':
         form = op.get('form', 'str')
         v = op['v']
-        arg = v if form == 'str' else (bitarray(v) if form == 'bitarray' else (tvm_bits(v) if len(v) <= 1023 else bitarray(v)))
+        if form in LAZY_FORMS:
+            # the argument is annotated Iterable[int]: a list, or a lazy iterable that has no length to ask for
+            ints = [int(ch) for ch in v]
+            arg = {'list': lambda: ints, 'gen': lambda: (x for x in ints), 'iter': lambda: iter(ints), 'map': lambda: map(int, v)}[form]()
+        else:
+            arg = v if form == 'str' else (bitarray(v) if form == 'bitarray' else (tvm_bits(v) if len(v) <= 1023 else bitarray(v)))
         return call(b.store_bits, arg)
     if t == 'bytes':
         return call(b.store_bytes, bytes.fromhex(op['v']))
@@ -857,7 +865,7 @@ class BuildWorld(HistoryWorld):
             v = rng.getrandbits(n) if t == 'uint' else rng.getrandbits(n) - (1 << (n - 1))
             return dict(op, t=t, n=n, v=v)
         if t == 'bits':
-            return dict(op, t='bits', v=_rbits(rng, max(0, want)), form=rng.choice(['str', 'bitarray', 'tvm']))
+            return dict(op, t='bits', v=_rbits(rng, max(0, want)), form=rng.choice(['str', 'bitarray', 'tvm', 'list', 'gen', 'iter', 'map']))
         if t == 'bytes':
             return dict(op, t='bytes', v=bytes(rng.getrandbits(8) for _ in range(max(0, min(want // 8 + (want % 8 > 0), 128)))).hex())
         if t == 'string':
@@ -1095,6 +1103,12 @@ class BuildWorld(HistoryWorld):
         before_bits = len(be['bits'])
         ok, res = lib_store(st, be, op, res)
         ctx.obs(ok)
+        if reason is None and not ok and t == 'bits' and op.get('form') in LAZY_FORMS:
+            # a library may insist on sized input (the unchanged one does: it asks len()); what it may not do is take an iterable
+            # it cannot measure and write past the limit - that direction is judged below
+            ctx.count('carve-out:unsized-iterable-refused')
+            self._resync_builder(st, be)
+            return
         if reason is None:
             if not ok:
                 self.V(ctx, 'fits-but-refused' if c07 else 'store-refused', 'store_' + t, klass,
